@@ -528,13 +528,18 @@ func finish(c *Check, start time.Time) int {
 	if s, err := strconv.Atoi(os.Getenv("VERIF_SEED")); err == nil {
 		seed = s
 	}
+	assumptions := append([]string{
+		"A1 Cosmos-SDK: a message handler's writes are committed only if it returns a nil error; ante handler verifies a signature for every GetSigners() address; ValidateBasic runs before the handler; KV iteration is in byte order",
+		"A3 go/types, go/ssa lowering and dominator computation (golang.org/x/tools v0.29.0) are correct",
+		"the rule decides a structural necessary condition of the property, not the behavioural statement itself (see coverage.not_decided)",
+	}, c.Assumptions...)
 	ev := map[string]interface{}{
 		"property_id": c.ID,
 		"tier":        c.Tier,
 		"seed":        seed,
 		"level":       "other",
 		"coverage":    cov,
-		"assumptions": c.Assumptions,
+		"assumptions": assumptions,
 		"wall_s":      time.Since(start).Seconds(),
 		"violations":  viol,
 	}
